@@ -227,3 +227,26 @@ func Verif_C02_Disabled() {
 	rt.Assert(!isAdaptive, "Disable() makes NewAdaptiveShedder return the no-op shedder")
 	_ = collection.NewSet
 }
+
+//verif:entry tier=quick,thorough cover=coarse,fine,odd
+//verif:doc NewAdaptiveShedder window scale for bucket lengths that do and do not divide one second (window, buckets) in {(1 s,1), (5 s,1), (2.2 s,2), (300 ms,1), (10 s,50), (1 s,3), (700 ms,7)}: the scale that converts "passes per bucket x latency in ms" into in-flight capacity is exactly (buckets per second)/1000 as a real quotient - never truncated to 0 for buckets longer than a second.
+func Verif_C02_WindowScale() {
+	cfgs := []struct {
+		w time.Duration
+		b int
+	}{{time.Second, 1}, {5 * time.Second, 1}, {2200 * time.Millisecond, 2}, {300 * time.Millisecond, 1}, {10 * time.Second, 50}, {time.Second, 3}, {700 * time.Millisecond, 7}}
+	c := cfgs[rt.Choose("config", len(cfgs))]
+	s := NewAdaptiveShedder(WithWindow(c.w), WithBuckets(c.b)).(*adaptiveShedder)
+	bucket := c.w / time.Duration(c.b)
+	want := float64(time.Second) / float64(bucket) / 1000
+	switch {
+	case bucket > time.Second:
+		rt.Cover("coarse")
+	case time.Second%bucket == 0:
+		rt.Cover("fine")
+	default:
+		rt.Cover("odd")
+	}
+	rt.Assert(s.windowScale == want, "window scale = buckets per second / 1000 (real quotient)")
+	rt.Assert(s.windowScale > 0, "the window scale is never zero: the capacity estimate does not collapse for long buckets")
+}
